@@ -8,7 +8,7 @@ EXTRA_TARGETS = ("BS.Properties.C07c",)
 RULE = ("round trips: random streams of 0..6 batches (0..9 rows, incl. empty batches) over 1-3 columns of the kind universe "
         "(built-in ints/floats/strings/bytes/bools, gob structs with some or all fields zero, pointers, slices, arrays, maps, a "
         "custom-codec column; a third of the composite values are zero values), random "
-        "destination sizes 1..12; damage: for small streams every single-bit flip and every truncation point "
+        "destination sizes 1..12; half of the streams are written from views (offset > 0) of one larger frame; damage: for small streams every single-bit flip and every truncation point "
         "(one case per stream enumerates all positions: exhaustive for that stream), random single flips, truncations "
         "and 2..6 byte bursts on larger streams; C07crc: random byte strings of 0..300 bytes, their CRC-32 as the codec computes "
         "it (NewIEEE, Reset, piecewise Write, Sum32) against the Lean model BS.Crc.crc32, and a copy damaged in a window of "
@@ -35,7 +35,9 @@ def gen_stream(r, maxb, maxrows):
                                      (r.choice([0, 0, r.rng(0, 90)]) if k in ("st", "sl", "mp", "bytes", "str", "s3") else r.rng(0, 90)))) for k in kinds))
         bs.append("B " + "|".join(rows) if rows else "B")
     dest = " ".join(str(r.rng(1, 12)) for _ in range(r.rng(1, 3)))
-    return "K %s ; %s ; DEST %s" % (",".join(kinds), " ; ".join(bs) if bs else "B", dest)
+    # half of the streams are written from views (offset > 0) of one larger frame, as the spiller and the task writers do
+    view = " ; VIEW %d" % r.choice([0, 1, 3, 7]) if r.chance(1, 2) else ""
+    return "K %s ; %s ; DEST %s%s" % (",".join(kinds), " ; ".join(bs) if bs else "B", dest, view)
 
 
 def gen_crc(r, tier):
